@@ -1057,6 +1057,23 @@ func judgeE2E(out *Outcome, p E2E, r *rig.Rig, conns []*e2eConn, all []*Op, stre
 		last[key] = e.Spec.Counter
 	}
 	out.stat("server_exec_inversions", inv)
+	// completions that overtook an earlier-started execution of the same connection
+	byExit := append([]svc.Exec(nil), execs...)
+	sort.Slice(byExit, func(i, j int) bool { return byExit[i].Exit < byExit[j].Exit })
+	overt := int64(0)
+	maxEnter := map[uint32]int64{}
+	for _, e := range byExit {
+		if !e.Known || e.Exit == 0 {
+			continue
+		}
+		if e.Enter < maxEnter[e.Spec.Conn] {
+			overt++
+		}
+		if e.Enter > maxEnter[e.Spec.Conn] {
+			maxEnter[e.Spec.Conn] = e.Enter
+		}
+	}
+	out.stat("server_completions_out_of_start_order", overt)
 }
 
 func equalU64(a, b []uint64) bool {
